@@ -54,7 +54,7 @@ Print Assumptions gen_getBlockIdxInHdr_refines.
 
 (** non-vacuity: blkSize 2 (16 blocks per segment), 3 segments *)
 Example gen_ex_blocks :
-  let g := Gen.mk_Blocks 2 16 3 0 48 in
+  let g := Gen.mk_Blocks 2 16 3 0 5 48 in
   Gen.Blocks_getBlockIdxInHdr g 29 [] = Ok ((34, 1, 5), []) /\
   Gen.Blocks_getBlockIdxInHdr g (-1) [] = Ok ((-1, -1, 0), []).
 Proof. vm_compute. repeat split; reflexivity. Qed.
